@@ -207,10 +207,10 @@ _soup_jobs = jobs
 
 def jobs(tier, seed):       # noqa: F811
     js = _soup_jobs(tier, seed)
-    trees = ["basic", "outline", "bg-rule", "mixed"]
+    trees = ["basic", "outline", "bg-rule", "mixed", "o-rule"]
     for t in trees:
         for f in FAULTS:
-            if f == "ragged-table-row" and t not in ("outline", "mixed"):
+            if f == "ragged-table-row" and t not in ("outline", "mixed", "o-rule"):
                 continue
             for fillers in ((0,) if tier == "quick" else (0, 1)):
                 js.append(Job("inject.%s.%s.f%d" % (t, f, fillers), "props.c05:h_inject", {"tree": t, "fault": f, "fillers": fillers},
